@@ -159,6 +159,29 @@ class C19(Prop):
                     fa, fb = unhx(a["fn"]), unhx(b["fn"])
                     if a.get("dir") == b.get("dir") and a.get("ext") == b.get("ext") and re.fullmatch(re.escape(fa) + rb"_\d+", fb):
                         return True
+        if finding["id"] == "K9" and "call #" in failure.get("msg", ""):
+            # two different tests make standalone calls through the same Filename / directory / extension, and the second one
+            # calls before the first one's execution has ended
+            cfgs, open_by_key = [], {}
+            for n_, kv in ops:
+                if n_ == "newconfig":
+                    cfgs.append(kv)
+                elif n_ == "newprocess":
+                    cfgs, open_by_key = [], {}
+                elif n_ == "endtest":
+                    for key in list(open_by_key):
+                        open_by_key[key].discard(kv["test"])
+                elif n_ == "match" and kv["api"] in ("stand", "standjson"):
+                    h = int(kv["h"])
+                    cfg = cfgs[h - 1] if 0 < h <= len(cfgs) else {}
+                    if cfg.get("fn") in ("~", "-", None):
+                        continue
+                    ext = cfg.get("ext") if cfg.get("ext") not in ("~", "-", None) else ("json" if kv["api"] == "standjson" else "")
+                    key = (cfg.get("dir"), cfg["fn"], ext)
+                    users = open_by_key.setdefault(key, set())
+                    users.add(kv["test"])
+                    if len(users) > 1:
+                        return True
         return False
 
     def nontrivial(self, case, ops, results):
